@@ -10,7 +10,8 @@ CLAIMED = {
         category="model_checking",
         text=("TLC checks Fresh / ReadTotal / CloneIsolation of specs/StateCache.tla on every history of State "
               "operations (set, put with indices/accumulate, read, precompute, full and per-individual revert, clone, "
-              "fork-mode switch, clear) up to a bounded length on five toy graph shapes; the specification is bound to "
+              "fork-mode switch, clear) up to a bounded length on five toy graph shapes (definitions that name a default value for a "
+              "parameter included; the graph the library derives from the definitions must be the declared one); the specification is bound to "
               "leaspy.variables.state.State in both directions: TLC-simulated behaviours are replayed into real State "
               "objects comparing the projected state after every step, and State events recorded from real fits, "
               "personalizations and random API histories on shipped model kinds are validated by TLC against "
@@ -76,8 +77,10 @@ CLAIMED.update({
     "C05": dict(
         engine="Saem", category="model_checking",
         text=("TLC checks PhaseRule, StepIndexRule, BurnInLength, PowerRefusedInv, BatchUpdate, SampledOnce and Termination of "
-              "specs/Saem.tla over every configuration with n_iter <= 12 (burn-in as count or fraction in tenths / eighths, six step powers) and "
-              "every iteration; real fits of sampled configurations on several model kinds are recorded (statistics of the "
+              "specs/Saem.tla over every configuration with n_iter <= 12 (burn-in as count or fraction in tenths / eighths, seven step powers incl. "
+              "the refused 1/2, 11/10 and not-a-number) and every iteration; real fits of sampled configurations on several model kinds "
+              "(some with the count loaded into the algorithm after its construction, some with a settings object that served a pilot run "
+              "with another n_iter before, every fourth with a re-used algorithm object) are recorded (statistics of the "
               "iteration, statistics used, burn-in flag) and the derived facts - memoryless or not, the step index m that "
               "explains every component of S_k, the refusal of the constructor, the resolved burn-in length - are validated by "
               "TLC against SaemTrace.tla."),
@@ -91,11 +94,15 @@ CLAIMED.update({
               "(specs/Masking.tla: filled, weighted_value, wsum, weighted products, Gaussian attachment pipeline) for every mask, "
               "every pair of twins agreeing on the observed entries and every sentinel (NaN, inf, huge) at masked entries; every "
               "3-entry vector (all masks, sentinels at masked entries, bool / int / float weights) is run through the real "
-              "WeightedTensor operations and compared by TLC with the algebra (MaskingTrace.tla); twin-dataset scenarios on real "
-              "models (masked values and padded ages overwritten, extra padded visits, 25 % missing entries incl. partially "
+              "WeightedTensor operations and compared by TLC with the algebra (MaskingTrace.tla); specs/WTAlgebra.tla: 17 operators "
+              "(reflected ones, comparisons, negation, absolute value, square) x 5 operand kinds x every masking on real WeightedTensor "
+              "objects - the masking is carried by every operation, two different maskings are refused, aggregates of the result see "
+              "observed entries only (WTAlgebraTrace.tla); twin-dataset scenarios on real models (masked values and padded ages overwritten, extra padded visits, 25 % missing entries incl. partially "
               "observed visits) must give equal attachment terms, sufficient statistics, counts, initial and fitted parameters "
-              "(memory phase included), trajectories at real visits and personalizations, and a noise level equal to the RMSE "
-              "over observed entries; the Bernoulli (binary) model is part of both tiers."),
+              "(memory phase included), trajectories at real visits and personalizations, an attachment equal to the sum of the "
+              "entry-wise Gaussian / Bernoulli terms over observed entries, and a noise level equal to the RMSE over observed entries - "
+              "also at every iteration, in and after the memory-less phase, of recorded fits with entries missing inside visits; the "
+              "Bernoulli (binary) model is part of both tiers."),
         note=("Bit-identical when padding is unchanged; relative 1e-5 (personalization 1e-2 absolute) when the amount of padding "
               "differs. Scenario space sampled (fills x padding x kinds); algebra exhaustive for 2 entries."),
         technique="TLA+ algebra + TLC exhaustive; code->spec conformance of vector operations; twin-dataset scenario replay",
@@ -255,7 +262,9 @@ CLAIMED.update({
         engine="SaveLoad", category="model_checking",
         text=("TLC enumerates every valid configuration of specs/SaveLoad.tla (4 model kinds x dimension 1-3 given or not x source "
               "dimension unspecified / 0 / 1 / 2 x noise default / scalar / diagonal x named, default or integer-labelled features x instance name = "
-              "kind or custom x origin fit or hand-written file: 2970 configurations) and checks SurvivesSaveLoad on the intended "
+              "kind or custom x origin: fit with 1-3 averaging iterations, hand-written file, fitted object edited through load_parameters, fitted "
+              "object calibrated again - the last two after the object answered trajectory requests and was saved to / loaded from the very "
+              "same path: 3564 configurations) and checks SurvivesSaveLoad on the intended "
               "design and SurvivesExceptNamed on the as-built one (three named deviations); configurations are executed on the real "
               "code (tiny fit, save, load, optional hand-edited file, re-save): population variables at prior modes after the fit, "
               "derived values consistent with the saved parameters, load outcome, parameters / hyper-parameters / trajectories at "
